@@ -55,6 +55,18 @@ def _min(a, b):
     return a if _rank(a) <= _rank(b) else b
 
 
+def _src(e):
+    """Source text of a (possibly resolved) test expression."""
+    e = getattr(e, 'orig', e)
+    try:
+        return ast.unparse(e)
+    except Exception:
+        try:
+            return show(e, 200)
+        except Exception:
+            return ''
+
+
 class Fresh:
     def __init__(self, model, oracle=None):
         self.model = model
@@ -324,7 +336,7 @@ class Fresh:
         for stmt in walk_no_nested(fi.node):
             if isinstance(stmt, ast.AugAssign) and isinstance(stmt.target, (ast.Name, ast.Attribute, ast.Subscript)) and \
                     id(stmt) in ff.pre and \
-                    isinstance(stmt.op, (ast.BitOr, ast.BitAnd, ast.BitXor, ast.Sub, ast.Add)):
+                    isinstance(stmt.op, (ast.BitOr, ast.BitAnd, ast.BitXor, ast.Sub, ast.Add, ast.Mult)):
                 before = ff.pre[id(stmt)]
                 load = _copy.copy(stmt.target)
                 load.ctx = ast.Load()
@@ -332,6 +344,13 @@ class Fresh:
                 cls, why = self.classify(cur, before, ff)
                 if cls == CACHED:
                     text = f"{show(stmt.target, 40)} {type(stmt.op).__name__}= .."
+                    add(stmt, f"in-place {text}", cls, False, why, text, 'mutcall')
+                elif cls not in WRITABLE and isinstance(stmt.op, (ast.Mult, ast.Add)) and isinstance(stmt.target, ast.Name) and \
+                        any((f"len({stmt.target.id})" in _src(f_.test)) or (f"isinstance({stmt.target.id}, list" in _src(f_.test))
+                            for f_ in before.facts.values()):
+                    # the branch is taken for a sized collection (its len() was tested): `x *= n` / `x += y` repeats or
+                    # extends that list in place - the caller's list, when x is a parameter
+                    text = f"{stmt.target.id} {type(stmt.op).__name__}= {show(stmt.value, 30)}"
                     add(stmt, f"in-place {text}", cls, False, why, text, 'mutcall')
                 elif cls not in WRITABLE and isinstance(stmt.op, (ast.Add, ast.BitOr)) and \
                         isinstance(stmt.value, (ast.List, ast.ListComp, ast.Set, ast.SetComp, ast.Dict, ast.DictComp, ast.Tuple)) and \
